@@ -193,4 +193,85 @@ example : mergeMax [[⟨1, []⟩, ⟨5, []⟩, ⟨2, []⟩], [⟨3, []⟩, ⟨4,
     = .ok [⟨3, []⟩, ⟨9, []⟩, ⟨2, [GStat.zero]⟩] := by
   decide +kernel
 
+/-- "For each leaf cluster and gene the reference-statistics file holds the
+number of member cells, the sum and sum of squares ..., and the numbers of
+member cells with CPM above 0, above 1, and at least 1 ...; cells not named by
+the taxonomy contribute nothing.  The values do not depend on how cells are
+spread over files, ... chunks or workers."  For every chunk size
+`rows ≥ 1`, every worker count `nProc ≥ 1`, every list of files, and every
+name → row table with rows inside the output (at least one file holding a
+named cell, as the source requires): the writer succeeds and row `c` of the
+written arrays is the zero row plus the sum of `cellStat` over exactly the
+cells of all files whose name the table sends to `c`.  Cells the table does
+not name (`rowOf = none`) appear in no row. -/
+theorem direct (nClusters g : Nat) (nameToRow : List (Nat × Nat))
+    (files : List (Nat × List CellRec)) (rows nProc : Nat)
+    (hrows : 1 ≤ rows) (hproc : 1 ≤ nProc) (hntr : ∀ p ∈ nameToRow, p.2 < nClusters)
+    (hw : ∃ f ∈ files, wanted nameToRow f.2 = true) :
+    ∃ buf, precompute nClusters g nameToRow files rows nProc = .ok buf ∧
+      buf.length = nClusters ∧
+      ∀ c : Nat, c < nClusters → buf[c]? = some ((Row.zero g).add (rowSum
+        (((files.flatMap (·.2)).filter (fun cell => rowOf nameToRow cell == some c)).map
+          (fun cell => cellStat cell.vals)))) :=
+  precompute_spec nClusters g nameToRow files rows nProc hrows hproc hntr hw
+
+example : precompute 2 1 [(10, 0), (11, 1), (12, 0)]
+      [(0, [⟨10, [1]⟩, ⟨99, [7]⟩]), (1, [⟨98, [5]⟩]), (2, [⟨11, [2]⟩, ⟨12, [3]⟩])] 1 2
+    = .ok [⟨2, [⟨4, 10, 2, 1, 2⟩]⟩, ⟨1, [⟨2, 4, 1, 1, 1⟩]⟩] := by
+  decide +kernel
+
+/-- "The values do not depend on how cells are spread over files, encodings,
+chunks or workers; cells not named by the taxonomy contribute nothing": two
+runs with the same name → row table whose files hold, up to order, the same
+named cells (the unnamed cells, the split into files, the chunk sizes and the
+worker counts may all differ) write identical arrays. -/
+theorem partition_indep (nClusters g : Nat) (nameToRow : List (Nat × Nat))
+    (files₁ files₂ : List (Nat × List CellRec)) (rows₁ nProc₁ rows₂ nProc₂ : Nat)
+    (hrows₁ : 1 ≤ rows₁) (hproc₁ : 1 ≤ nProc₁) (hrows₂ : 1 ≤ rows₂) (hproc₂ : 1 ≤ nProc₂)
+    (hntr : ∀ p ∈ nameToRow, p.2 < nClusters)
+    (hw₁ : ∃ f ∈ files₁, wanted nameToRow f.2 = true)
+    (hw₂ : ∃ f ∈ files₂, wanted nameToRow f.2 = true)
+    (hperm : ((files₁.flatMap (·.2)).filter (fun cell => (rowOf nameToRow cell).isSome)).Perm
+      ((files₂.flatMap (·.2)).filter (fun cell => (rowOf nameToRow cell).isSome))) :
+    precompute nClusters g nameToRow files₁ rows₁ nProc₁
+      = precompute nClusters g nameToRow files₂ rows₂ nProc₂ := by
+  obtain ⟨b₁, e₁, l₁, r₁⟩ :=
+    precompute_spec nClusters g nameToRow files₁ rows₁ nProc₁ hrows₁ hproc₁ hntr hw₁
+  obtain ⟨b₂, e₂, l₂, r₂⟩ :=
+    precompute_spec nClusters g nameToRow files₂ rows₂ nProc₂ hrows₂ hproc₂ hntr hw₂
+  rw [e₁, e₂]
+  congr 1
+  apply List.ext_getElem?
+  intro c
+  by_cases hc : c < nClusters
+  · rw [r₁ c hc, r₂ c hc, S_perm_of_lab nameToRow c _ _ hperm]
+  · rw [List.getElem?_eq_none (by omega), List.getElem?_eq_none (by omega)]
+
+example : precompute 2 1 [(10, 0), (11, 1), (12, 0)]
+      [(0, [⟨10, [1]⟩, ⟨99, [7]⟩]), (1, [⟨98, [5]⟩]), (2, [⟨11, [2]⟩, ⟨12, [3]⟩])] 1 2
+    = precompute 2 1 [(10, 0), (11, 1), (12, 0)]
+      [(5, [⟨12, [3]⟩, ⟨11, [2]⟩, ⟨10, [1]⟩])] 2 3 := by
+  decide +kernel
+
+/-- "the reference-statistics file holds the number of member cells": under
+the hypotheses of `direct`, `n_cells[c]` is the number of cells, over all
+files, whose name the table sends to row `c`. -/
+theorem cell_count (nClusters g : Nat) (nameToRow : List (Nat × Nat))
+    (files : List (Nat × List CellRec)) (rows nProc : Nat)
+    (hrows : 1 ≤ rows) (hproc : 1 ≤ nProc) (hntr : ∀ p ∈ nameToRow, p.2 < nClusters)
+    (hw : ∃ f ∈ files, wanted nameToRow f.2 = true) :
+    ∃ buf, precompute nClusters g nameToRow files rows nProc = .ok buf ∧
+      ∀ c : Nat, c < nClusters → ∃ row, buf[c]? = some row ∧
+        row.n = ((files.flatMap (·.2)).filter
+          (fun cell => rowOf nameToRow cell == some c)).length := by
+  obtain ⟨buf, e, _, r⟩ :=
+    precompute_spec nClusters g nameToRow files rows nProc hrows hproc hntr hw
+  refine ⟨buf, e, fun c hc => ⟨_, r c hc, ?_⟩⟩
+  simp only [Row.add, Row.zero, S, cellsOfRow, rowSum_cellStat_n, Nat.zero_add]
+
+example : (precompute 2 1 [(10, 0), (11, 1), (12, 0)]
+      [(0, [⟨10, [1]⟩, ⟨99, [7]⟩]), (1, [⟨98, [5]⟩]), (2, [⟨11, [2]⟩, ⟨12, [3]⟩])] 1 2).toOption.map
+      (fun buf => buf.map (·.n)) = some [2, 1] := by
+  decide +kernel
+
 end CTM.C09
